@@ -398,6 +398,12 @@ def run_groups_job(job):
             if gi is not None:
                 warned.setdefault(gi, []).append(m.group(2))
         out["warned"] = warned
+        if job.get("wide"):
+            # declarations of the generated tables (for the table-size guards of the wide-table families)
+            try:
+                out["scanner_head"] = "\n".join(l for l in open(os.path.join(wd, "s.c"), errors="replace") if l.startswith("static const") and "[" in l)[:20000]
+            except OSError:
+                out["scanner_head"] = ""
         if res["summary"] is None:
             out["spec"] = _read(os.path.join(wd, "s.l"))
             out["tables"] = _read(os.path.join(wd, "s_tables.h"))
